@@ -207,8 +207,36 @@ func checkTransparent(c TCase, s *rt.Section) (*rt.Failure, tInfo) {
 }
 
 var neverPatterns = []string{`§(\d+)`, `¤+`, `~(\w+)~`, `#(\d+)#`, `\$\$x`, `☆`, `\\d`, `E(\d+)E`, `(?i)zzz(\d*)`}
+
+// emptyPatterns can match the empty string at an operand start; an empty match has always meant "no match"
+var emptyPatterns = []string{`Q*`, `(?:#\d+)?`, `§?`, `¤{0,3}`, `\s*`, `(☆\d+)?`, `(?:)`, `~*(\d*)~*Z*`}
 var midPatterns = []string{`=\s*\S`, `[,;]\s*\S?`, `[*/%<>|?:]\s*\d*`, `\)\s*`, `\]`, `\}`, `\.\.`, `!=`}
 var sometimesPatterns = []string{`E(\d+)`, `(\d+)!`, `x(\d*)`, `[gh]\d`, `'a'`, `\d+\.\d+`, `true`, `null`, `\[\s*\]`, `-\s*\d+`, `\d+d`, `力量`, `(\d+)X(\d+)`, `[a-z]+\(`, `\d{2,}`, `&\w+`, "`"}
+
+// shadowTemplates: a name that holds null in the scope it is read in but is defined further out (an enclosing
+// scope, the host's variables, the built-ins): the lookup continues outwards, with and without hooks.
+// {n} a variable name, {b} a built-in function, {v} a value, {r} a result variable.
+var shadowTemplates = []string{
+	"{n} = {v}; func sf1({n}) { {n} }; {r} = sf1(null)",
+	"{n} = {v}; func sf2() { {n} = null; {n} }; {r} = sf2()",
+	"{n} = {v}; func sf3({n}) { func sf4() { {n} }; sf4() }; {r} = sf3(null)",
+	"{n} = {v}; func sf5({n}) { {n} + 1 }; {r} = sf5(null)",
+	"{b} = null; {r} = {b}(1.5)",
+	"func sf6({b}) { {b}(2.5) }; {r} = sf6(null)",
+	"{n} = null; {r} = {n}",
+	"{n} = {v}; func sf7({n}) { if true { {n} = null }; [{n}, {n}] }; {r} = sf7(1)",
+	"&{n} = {v}; func sf8({n}) { {n} }; {r} = sf8(null)",
+	"{n} = {v}; func sf9({n}) { i = 0; while i < 2 { i = i + 1 }; {n} }; {r} = sf9(null)",
+}
+
+func drawShadow(t *rapid.T) string {
+	tpl := rapid.SampledFrom(shadowTemplates).Draw(t, "shadowTpl")
+	n := rapid.SampledFrom([]string{"a", "b", "c", "x", "v0", "v1", "hp"}).Draw(t, "shadowName")
+	b := rapid.SampledFrom([]string{"ceil", "floor", "round", "int", "str", "abs"}).Draw(t, "shadowBuiltin")
+	v := rapid.SampledFrom([]string{"3", "7", "'s'", "[1,2]", "2.5", "d1", "{'k':1}"}).Draw(t, "shadowVal")
+	r := rapid.SampledFrom([]string{"r0", "r1", "a"}).Draw(t, "shadowRes")
+	return strings.NewReplacer("{n}", n, "{b}", b, "{v}", v, "{r}", r).Replace(tpl)
+}
 
 func drawDecl(t *rapid.T) Ext {
 	e := Ext{Kind: "decl"}
@@ -241,8 +269,10 @@ func drawPassiveExts(t *rapid.T, min, max int) []Ext {
 	n := rapid.IntRange(min, max).Draw(t, "nExt")
 	for i := 0; i < n; i++ {
 		switch rapid.IntRange(0, 9).Draw(t, "extKind") {
-		case 0, 1:
+		case 0:
 			out = append(out, Ext{Kind: "re", Pat: rapid.SampledFrom(neverPatterns).Draw(t, "neverPat")})
+		case 1:
+			out = append(out, Ext{Kind: "re", Pat: rapid.SampledFrom(emptyPatterns).Draw(t, "emptyPat")})
 		case 2, 3:
 			out = append(out, Ext{Kind: "re", Pat: rapid.SampledFrom(midPatterns).Draw(t, "midPat")})
 		case 4:
@@ -279,6 +309,10 @@ func propTransparent(t *rapid.T, s *rt.Section) {
 	g := gen.NewG(t, o, env)
 	z := &gen.Noise{Vals: rapid.SliceOfN(rapid.IntRange(0, 1000), 0, 12).Draw(t, "noise")}
 	c.Src, _ = gen.PrintNoisy(g.Program(), z)
+	if rapid.IntRange(0, 3).Draw(t, "withShadow") == 0 {
+		c.Src = drawShadow(t) + "; " + c.Src
+		s.Class("prelude:null-shadows-outer-name")
+	}
 	tclass := "none"
 	if rapid.IntRange(0, 2).Draw(t, "withTail") == 0 {
 		var tail string
